@@ -196,6 +196,13 @@ func buildGenesis(env EnvCfg) app.GenesisState {
 				RewardDelegators: map[string]uint32{caddr("R1").String(): 10, caddr("R2").String(): 33}},
 		)
 	}
+	if env.Genesis == "custodial-nodes" {
+		// nodes staked before the non-custodial upgrade: no output address on record
+		pos.Validators = append(pos.Validators,
+			nodesTypes.Validator{Address: caddr("N1"), PublicKey: ckey("N1").PublicKey(), Status: sdk.Staked, Chains: []string{"0001"}, ServiceURL: "https://n1.example:443", StakedTokens: sdk.NewInt(stakeN1)},
+			nodesTypes.Validator{Address: caddr("N2"), PublicKey: ckey("N2").PublicKey(), Status: sdk.Staked, Chains: []string{"0001", "0002"}, ServiceURL: "https://n2.example:443", StakedTokens: sdk.NewInt(stakeN2)},
+		)
+	}
 	gen[nodesTypes.ModuleName] = cdc.MustMarshalJSON(pos)
 	// apps
 	var ap appsTypes.GenesisState
